@@ -194,17 +194,20 @@ FIXED_CUBES = [
     # was installed before
     {"nints": 8, "nbands": 2, "nbins": 16, "seed": 5, "nchans": 64, "foff": -2.0, "fch1": 500.0, "tsamp": 2.0**-10, "nsamples": 2**17, "p0": 1.0, "dm0": 0.0,
      "p_targets": [1 / 512, 1 / 256, 3 / 512, -1 / 512, 1 / 128]},
+    # an hour-long observation of a 5 ms pulsar in 64 bins: tobs*nbins/p0 = 4.6e7, where single-precision bin counts
+    # stop resolving the drift of a period step of a few 1e-8
+    {"nints": 16, "nbands": 2, "nbins": 64, "seed": 6, "nchans": 64, "foff": -1.0, "fch1": 1400.0, "tsamp": 64e-6, "nsamples": 56_250_000, "p0": 0.005, "dm0": 20.0},
 ]
 
 
 def enum_histories(tier):
     # quick: two descending-band cubes to depth 4 and the ascending-band cube to depth 3
-    cubes = [0, 1, 3, 4] if tier == "quick" else [0, 1, 2, 3, 4]
+    cubes = [0, 1, 3, 4, 5] if tier == "quick" else [0, 1, 2, 3, 4, 5]
     for ci in cubes:
         spec = FIXED_CUBES[ci]
         dms, ps = targets(spec)
         alpha = [("dm", v) for v in dms] + [("p", v) for v in ps]
-        depth = (3 if ci >= 3 else 4) if tier == "quick" else (5 if ci == 0 else 4)
+        depth = (2 if ci == 5 else 3 if ci >= 3 else 4) if tier == "quick" else (5 if ci == 0 else 3 if ci == 5 else 4)
         for L in range(1, depth + 1):
             for seq in itertools.product(range(len(alpha)), repeat=L):
                 yield {"cube": ci, "ops": list(seq)}
